@@ -10,7 +10,7 @@ use serde_json::{json, Value};
 pub static ENGINE: Engine = Engine {
     prop: "C18",
     level: "exploration",
-    rule: "the real random_graph_gen binary with its random source scripted through the verif-hooks feature: for every (V, -u) whose candidate edge list has m <= 6 entries (directed V <= 3, undirected V <= 4) ALL m! Fisher-Yates choice vectors x every E in 0..m+1 x {edge list, --dot}: exactly E distinct edges, endpoints distinct and among v0..v(V-1), no reversed pair under -u, E > m refused with non-zero exit and no edge printed, and the number of distinct outputs over all vectors equals m!/(m-E)! (proof that every choice is owned). For larger candidate lists (V=4,5 directed; V=5,6 undirected; m = 10..20) every ORDERED SELECTION of E <= 2 (3) candidate edges is forced by a constructed choice vector. -o FILE onto an existing longer file = stdout of the same request. --complete x V in 0..5 x -u = all pairs. --convert: every edge list <= 3 over {a,b,c} x -u x {csv, --dot} reproduces the list (reversed duplicates merged under -u). --colors k: every loop-free graph on <= 4 named vertices (two name families, one with names that are prefixes of each other) x k in 0..3: the output has a clique choosing one (vertex,colour) per input vertex iff the input is k-colourable (brute force). Larger inputs: graphs on five vertices with two-digit names x k in 2..4 (every third graph in quick, all 1023 in thorough) and edge lists of 4..10 edges through --convert. Labelled supplement: un-scripted runs with fresh entropy (sampled, not part of the claim). distinct = distinct (argv, script, stdout)",
+    rule: "the real random_graph_gen binary with its random source scripted through the verif-hooks feature: for every (V, -u) whose candidate edge list has m <= 6 entries (directed V <= 3, undirected V <= 4) ALL m! Fisher-Yates choice vectors x every E in 0..m+1 x {edge list, --dot}: exactly E distinct edges, endpoints distinct and among v0..v(V-1), no reversed pair under -u, E > m refused with non-zero exit and no edge printed, and the number of distinct outputs over all vectors equals m!/(m-E)! (proof that every choice is owned). For larger candidate lists (V=4,5 directed; V=5,6 undirected; m = 10..20) every ORDERED SELECTION of E <= 2 (3) candidate edges is forced by a constructed choice vector. -o FILE onto an existing longer file = stdout of the same request. --complete x V in 0..5 x -u x {no E, E = 0, 1, m, m+1, 50} = all pairs. --convert: every edge list <= 3 over {a,b,c} x -u x {csv, --dot} reproduces the list (reversed duplicates merged under -u). --colors k: every loop-free graph on <= 4 named vertices (two name families, one with names that are prefixes of each other) x k in 0..3: the output has a clique choosing one (vertex,colour) per input vertex iff the input is k-colourable (brute force). Larger inputs: graphs on five vertices with two-digit names x k in 2..4 (every third graph in quick, all 1023 in thorough) and edge lists of 4..10 edges through --convert. Labelled supplement: un-scripted runs with fresh entropy (sampled, not part of the claim). distinct = distinct (argv, script, stdout)",
     assumptions: &["the hook replays RSBDD_VERIF_RNG as the u32 values drawn by rand 0.8's shuffle (widening-multiply index sampling); a mismatch shows up as a wrong number of distinct outputs", "k-colourability is defined on loop-free graphs; isolated vertices cannot be expressed in an edge list"],
     max_shards: 64,
     run,
@@ -301,23 +301,31 @@ fn complete_sweep(ctx: &mut Ctx) {
     for v in 0..=5usize {
         for u in [false, true] {
             for dot in [false, true] {
-                let c = json!({"part": "complete", "v": v, "undirected": u, "dot": dot});
-                ctx.begin_case(|| c.clone());
-                ctx.count("evaluations", 1);
-                let mut args = vec![v.to_string(), "--complete".to_string()];
-                if u {
-                    args.push("-u".into());
-                }
-                if dot {
-                    args.push("--dot".into());
-                }
-                let r = run_bin("random_graph_gen", &args, None, &[]);
-                let key = format!("{TAG} random_graph_gen {}", args.join(" "));
-                ctx.distinct(&(&args, &r.stdout));
                 let m = if u { v * v.saturating_sub(1) / 2 } else { v * v.saturating_sub(1) };
-                match judge_generated(&r, v, m, u, dot, m) {
-                    Err(msg) => ctx.violation(key, format!("--complete: {msg}"), c),
-                    Ok(_) => {}
+                // --complete yields all pairs whether or not an edge count is given as well
+                for e in [None, Some(0usize), Some(1), Some(m), Some(m + 1), Some(50)] {
+                    let c = json!({"part": "complete", "v": v, "undirected": u, "dot": dot, "edges": e});
+                    ctx.begin_case(|| c.clone());
+                    ctx.count("evaluations", 1);
+                    ctx.count("complete_runs", 1);
+                    let mut args = vec![v.to_string()];
+                    if let Some(e) = e {
+                        args.push(e.to_string());
+                    }
+                    args.push("--complete".to_string());
+                    if u {
+                        args.push("-u".into());
+                    }
+                    if dot {
+                        args.push("--dot".into());
+                    }
+                    let r = run_bin("random_graph_gen", &args, None, &[]);
+                    let key = format!("{TAG} random_graph_gen {}", args.join(" "));
+                    ctx.distinct(&(&args, &r.stdout));
+                    match judge_generated(&r, v, m, u, dot, m) {
+                        Err(msg) => ctx.violation(key, format!("--complete: {msg}"), c),
+                        Ok(_) => {}
+                    }
                 }
             }
         }
